@@ -112,10 +112,12 @@ type config struct {
 	withMeta  bool
 	plainMeta bool
 	human     bool
+	// forceModel: hand the file to the model even when the R6 ration is used up
+	forceModel bool
 }
 
 func (c config) String() string {
-	return fmt.Sprintf("v=%s u=%q o=%q perm=%d meta=%v plainMeta=%v human=%v", c.version, c.user, c.owner, int(c.perm), c.withMeta, c.plainMeta, c.human)
+	return fmt.Sprintf("v=%s u=%q o=%q perm=%d meta=%v plainMeta=%v human=%v", c.version, clipS(c.user), clipS(c.owner), int(c.perm), c.withMeta, c.plainMeta, c.human)
 }
 
 type written struct {
@@ -130,6 +132,7 @@ type run struct {
 	e       *common.Env
 	id      int
 	r6model int
+	fileIdx int
 	plan    []string
 }
 
@@ -233,6 +236,67 @@ func (rn *run) checkFile(cfg config) {
 		}
 		putStream(w.Alloc(), func() pdf.Object { return pdf.Dict{"D": fresh(d)} }, body)
 	}
+	// long containers: arrays of 1 .. 1000 elements (flat, nested, dictionaries inside long arrays, long arrays
+	// inside dictionaries inside arrays), dictionaries and strings whose formatted size crosses 64/512/1024/4096
+	// bytes - in direct objects, stream dictionaries and object streams
+	idx := rn.fileIdx
+	rn.fileIdx++
+	mkLong := func(tag string, n, shape int) func() pdf.Object {
+		m := mk(tag)
+		elem := func(i int) pdf.String { return fresh(append(append([]byte{}, m...), []byte(fmt.Sprintf("-%d", i))...)) }
+		return func() pdf.Object {
+			flat := make(pdf.Array, n)
+			for i := range flat {
+				flat[i] = elem(i)
+			}
+			switch shape % 5 {
+			case 0:
+				return flat
+			case 1: // a long array inside a short one
+				return pdf.Array{pdf.Integer(1), flat, elem(n)}
+			case 2: // strings as dictionary values inside a long array
+				a := make(pdf.Array, n)
+				for i := range a {
+					a[i] = pdf.Dict{"V": elem(i), "N": pdf.Integer(i)}
+				}
+				return a
+			case 3: // a long array inside a dictionary inside an array
+				return pdf.Array{pdf.Dict{"In": flat, "S": elem(n)}, pdf.Name("x")}
+			default: // long array of short arrays
+				a := make(pdf.Array, n)
+				for i := range a {
+					a[i] = pdf.Array{elem(i), pdf.Integer(i)}
+				}
+				return a
+			}
+		}
+	}
+	{
+		f := mkLong("la", arraySizes[idx%7], idx)
+		put(w.Alloc(), func() pdf.Object { return pdf.Dict{"Long": f()} })
+	}
+	put(w.Alloc(), mkLongOnce(mkLong("lb", arraySizes[(idx+3)%7], idx+2)))
+	{
+		f := mkLongOnce(mkLong("lc", arraySizes[(idx+5)%7], idx+1))
+		d := mk("ld")
+		putStream(w.Alloc(), func() pdf.Object { return pdf.Dict{"D": fresh(d), "Long": f()} }, sameBody)
+	}
+	{
+		// a dictionary with many entries and one long string
+		nEnt := []int{3, 20, 40, 150}[idx%4]
+		strLen := []int{60, 500, 1020, 4090, 5000}[idx%5]
+		bm, lm := mk("bd"), mk("ls")
+		put(w.Alloc(), func() pdf.Object {
+			d := pdf.Dict{}
+			for i := 0; i < nEnt; i++ {
+				d[pdf.Name(fmt.Sprintf("K%d", i))] = fresh(append(append([]byte{}, bm...), []byte(fmt.Sprintf("-%d", i))...))
+			}
+			d["LongString"] = fresh(append(append([]byte{}, lm...), bytes.Repeat([]byte("x"), strLen)...))
+			return d
+		})
+	}
+	longMember := mkLongOnce(mkLong("lm", arraySizes[(idx+1)%7], idx+3))
+
 	// high object numbers and non-zero generations
 	nHigh := 2 + e.Rand.IntN(3)
 	used := map[uint32]bool{}
@@ -264,12 +328,13 @@ func (rn *run) checkFile(cfg config) {
 	}
 	// object stream members
 	cm1, cm2 := mk("cm1"), mk("cm2")
-	crefs := []pdf.Reference{w.Alloc(), w.Alloc()}
+	crefs := []pdf.Reference{w.Alloc(), w.Alloc(), w.Alloc()}
 	cobjs := []func() pdf.Object{
 		func() pdf.Object { return pdf.Dict{"CS": fresh(cm1), "Same": fresh(same)} },
 		func() pdf.Object { return pdf.Array{fresh(cm2)} },
+		longMember,
 	}
-	if err := w.WriteCompressed(crefs, cobjs[0](), cobjs[1]()); err != nil {
+	if err := w.WriteCompressed(crefs, cobjs[0](), cobjs[1](), cobjs[2]()); err != nil {
 		e.Fail("writer-error", err.Error(), info)
 	}
 	for i := range crefs {
@@ -550,7 +615,7 @@ func (rn *run) checkFile(cfg config) {
 	}
 
 	// (5) the independent implementation on every stored string and stream
-	if R >= 5 {
+	if R >= 5 && !cfg.forceModel {
 		if rn.r6model <= 0 {
 			e.Count(true, cfg.String(), "model-skipped/"+class)
 			return
@@ -572,11 +637,44 @@ func (rn *run) checkFile(cfg config) {
 		line += fmt.Sprintf(" %d %d %s %s", it.ref.Number(), it.ref.Generation(), it.kind, common.Hex(it.raw))
 	}
 	e.Line("cases.txt", "%s", line)
+	e.Line("ameta.txt", "%s R=%d password=%q %s", id, R, clipS(pw), cfg.String())
 	e.Line("impl.obs", "%s ok %d %s", id, int(r.GetMeta().Permissions), common.Hex(fileKey))
 	for i, it := range items {
 		e.Line("impl.obs", "%s.%d %s", id, i, common.Hex(it.plain))
 		e.Count(true, fmt.Sprintf("%s|%v|%d", cfg.String(), it.ref, i), "model-decrypt/"+class)
 	}
+}
+
+var arraySizes = []int{1, 2, 63, 64, 65, 200, 1000}
+
+// mkLongOnce makes sure the generator is deterministic across calls (it is: the marker is drawn once)
+func mkLongOnce(f func() pdf.Object) func() pdf.Object { return f }
+
+func clipS(s string) string {
+	if len(s) > 16 {
+		return fmt.Sprintf("%s..(%d bytes)", s[:16], len(s))
+	}
+	return s
+}
+
+// straddlePasswords: passwords whose prepared UTF-8 form is longer than 127 bytes with a 2-, 3- or 4-byte
+// character across byte 127 (Algorithm 2.A: the first 127 bytes are used, whatever they are)
+func straddlePasswords(e *common.Env) []string {
+	var res []string
+	for _, c := range []struct {
+		ch  string
+		off int
+	}{{"\u20ac", 2}, {"\u00e9", 1}, {"\U0001D11E", 3}, {"\u20ac", 1}, {"\U0001D11E", 1}, {"\U0001D11E", 2}} {
+		if p, ok := pdf.VerifSASLprep(c.ch); !ok || p != c.ch {
+			continue
+		}
+		b := make([]byte, 127-c.off)
+		for i := range b {
+			b[i] = byte('a' + e.Rand.IntN(26))
+		}
+		res = append(res, string(b)+c.ch+"tail")
+	}
+	return res
 }
 
 func inflate(b []byte) ([]byte, error) {
@@ -1003,7 +1101,7 @@ func main() {
 		}
 	}
 	e := common.New(10)
-	rn := &run{e: e, r6model: e.Pick(2, 12)}
+	rn := &run{e: e, r6model: e.Pick(1, 12)}
 	pws := []string{"", "u", "user pw", "pässwörd", strings.Repeat("p", 33)}
 	rounds := e.Pick(2, 30)
 	perm := 0
@@ -1024,6 +1122,13 @@ func main() {
 				rn.checkFile(cfg)
 			}
 		}
+	}
+	// revision 6 with a password cut inside a multi-byte character: the owner variant needs the fewest hashes
+	for i, pw := range straddlePasswords(e) {
+		if i >= e.Pick(1, 6) {
+			break
+		}
+		rn.checkFile(config{version: pdf.V2_0, user: "u", owner: pw, perm: pdf.PermCopy, human: i%2 == 1, forceModel: true})
 	}
 	rn.planPhase2()
 	e.Finish("nontrivial = distinct (file configuration, object, string/stream) handed to the model, plaintext markers scanned for, groups of equal plaintexts compared", nil)
